@@ -2,6 +2,8 @@
  * canonical line per case (same format as ocaml/drv_c20.ml).
  *   HT <W|S|P> <n> ; idx ty v , ... ; op , op ...
  *   AT <i|u32|u64|sz> <codes...>
+ *   AF <codes...> | AF null          white-box ABTD_affinity_list_create
+ *   ENV nc=<cores> pg=<pagesize> NAME=c.c.c ...   ABTD_env_init / ABT_init in a child
  * W = white box on a sanitizer-instrumented copy of util/hashtable.c,
  * S = ABT_sched_config public API, P = ABT_pool_config public API. */
 #include "abti.h"
@@ -28,6 +30,14 @@
 #undef ABTU_atoui32
 #undef ABTU_atoui64
 #undef ABTU_atosz
+/* instrumented private copy of the affinity parser */
+#define ABTD_affinity_list_create vhx_aff_create
+#define ABTD_affinity_list_free vhx_aff_free
+#include "arch/abtd_affinity_parser.c"
+#undef ABTD_affinity_list_create
+#undef ABTD_affinity_list_free
+#include <unistd.h>
+#include <sys/wait.h>
 
 typedef struct {
     int type;
@@ -410,6 +420,317 @@ static void do_at(char *line)
     free(s);
 }
 
+/* ---- AF: affinity parser ------------------------------------------- */
+static int parse_codes(const char *p, int *codes, int max)
+{
+    int len = 0;
+    while (*p && len < max) {
+        char *q;
+        long c = strtol(p, &q, 10);
+        if (q == p)
+            break;
+        codes[len++] = (int)c;
+        p = q;
+    }
+    return len;
+}
+
+static void af_run(const char *s)
+{
+    ABTD_affinity_list *p_list = NULL;
+    int ret = vhx_aff_create(s, &p_list);
+    if (ret != ABT_SUCCESS) {
+        printf("AF reject\n");
+        return;
+    }
+    uint64_t h = 0, tot = 0;
+    uint32_t i, j;
+    for (i = 0; i < p_list->num; i++) {
+        ABTD_affinity_id_list *l = p_list->p_id_lists[i];
+        h = (h * 31 + 40503) & 0xFFFFFFFFULL;
+        for (j = 0; j < l->num; j++)
+            h = (h * 31 + (uint64_t)(uint32_t)l->ids[j] + 1) & 0xFFFFFFFFULL;
+        tot += l->num;
+    }
+    printf("AF ok n=%u tot=%" PRIu64 " h=%" PRIu64, p_list->num, tot, h);
+    if (tot <= 48 && p_list->num <= 48) {
+        printf(" ");
+        for (i = 0; i < p_list->num; i++) {
+            ABTD_affinity_id_list *l = p_list->p_id_lists[i];
+            printf("{");
+            for (j = 0; j < l->num; j++)
+                printf("%s%d", j ? "," : "", l->ids[j]);
+            printf("}");
+        }
+    }
+    printf("\n");
+    vhx_aff_free(p_list);
+}
+
+/* run f(arg) in a forked child; a sanitizer abort / signal in the child is
+ * reported as a "CRASH: ..." line by the parent, so one bad case does not
+ * stop the run */
+static void in_child(const char *tag, void (*f)(const char *), const char *arg)
+{
+    int pfd[2];
+    fflush(stdout);
+    fflush(stderr);
+    if (pipe(pfd) != 0)
+        VH_DIE("pipe");
+    pid_t pid = fork();
+    if (pid < 0)
+        VH_DIE("fork");
+    if (pid == 0) {
+        close(pfd[0]);
+        dup2(pfd[1], 2);
+        close(pfd[1]);
+        f(arg);
+        fflush(stdout);
+        _exit(0);
+    }
+    close(pfd[1]);
+    char err[8192];
+    size_t n = 0;
+    ssize_t r;
+    while ((r = read(pfd[0], err + n, sizeof(err) - 1 - n)) > 0)
+        n += (size_t)r;
+    close(pfd[0]);
+    err[n] = 0;
+    int st = 0;
+    waitpid(pid, &st, 0);
+    if (WIFEXITED(st) && WEXITSTATUS(st) == 0)
+        return;
+    /* summary: the sanitizer's first diagnostic line */
+    const char *k = strstr(err, "runtime error:");
+    if (!k)
+        k = strstr(err, "AddressSanitizer:");
+    char sum[200] = "";
+    if (k) {
+        size_t m = strcspn(k, "\n");
+        if (m > sizeof(sum) - 1)
+            m = sizeof(sum) - 1;
+        memcpy(sum, k, m);
+        sum[m] = 0;
+    }
+    printf("CRASH: %s status=%d %s\n", tag, st, sum);
+}
+
+static void do_af(char *line)
+{
+    char *p = line + 2;
+    while (*p == ' ')
+        p++;
+    if (!strncmp(p, "null", 4)) {
+        af_run(NULL);
+        return;
+    }
+    static int codes[1 << 16];
+    int len = parse_codes(p, codes, 1 << 16), i, slen = 0;
+    while (slen < len && codes[slen] != 0)
+        slen++;
+    /* exact-size heap buffer (string + NUL) so that ASan sees any read past
+     * the terminating NUL */
+    char *s = (char *)malloc(slen + 1);
+    for (i = 0; i < slen; i++)
+        s[i] = (char)codes[i];
+    s[slen] = 0;
+    /* UBSan aborts on a signed overflow; an int can only overflow on a run of
+     * at least 10 digits, so such strings are parsed in a child process and
+     * the abort is reported as this case's "CRASH: ..." line */
+    int run = 0, maxrun = 0;
+    for (i = 0; i < slen; i++) {
+        run = (s[i] >= '0' && s[i] <= '9') ? run + 1 : 0;
+        if (run > maxrun)
+            maxrun = run;
+    }
+    if (maxrun >= 10)
+        in_child("AF", af_run, s);
+    else
+        af_run(s);
+    free(s);
+}
+
+/* ---- ENV: ABTD_env_init under a generated environment ---------------- */
+extern char **environ;
+static ABTD_atomic_int g_smoke_cnt;
+static ABT_key g_smoke_key;
+static void smoke_ult(void *arg)
+{
+    void *v = NULL;
+    ABT_key_set(g_smoke_key, arg);
+    ABT_thread_yield();
+    ABT_key_get(g_smoke_key, &v);
+    if (v == arg)
+        ABTD_atomic_fetch_add_int(&g_smoke_cnt, 1);
+}
+static void smoke_task(void *arg)
+{
+    ABTD_atomic_fetch_add_int(&g_smoke_cnt, 1);
+}
+static int smoke(void)
+{
+    ABT_xstream xs;
+    ABT_pool pool;
+    ABT_thread th[8];
+    ABT_task tk[4];
+    int i;
+    ABTD_atomic_relaxed_store_int(&g_smoke_cnt, 0);
+    if (ABT_key_create(NULL, &g_smoke_key) != ABT_SUCCESS)
+        return 1;
+    if (ABT_xstream_create(ABT_SCHED_NULL, &xs) != ABT_SUCCESS)
+        return 2;
+    if (ABT_xstream_get_main_pools(xs, 1, &pool) != ABT_SUCCESS)
+        return 3;
+    for (i = 0; i < 8; i++)
+        if (ABT_thread_create(pool, smoke_ult, (void *)(intptr_t)(i + 1),
+                              ABT_THREAD_ATTR_NULL, &th[i]) != ABT_SUCCESS)
+            return 4;
+    for (i = 0; i < 4; i++)
+        if (ABT_task_create(pool, smoke_task, NULL, &tk[i]) != ABT_SUCCESS)
+            return 5;
+    for (i = 0; i < 8; i++)
+        if (ABT_thread_free(&th[i]) != ABT_SUCCESS)
+            return 6;
+    for (i = 0; i < 4; i++)
+        if (ABT_task_free(&tk[i]) != ABT_SUCCESS)
+            return 7;
+    if (ABT_xstream_join(xs) != ABT_SUCCESS || ABT_xstream_free(&xs) != ABT_SUCCESS)
+        return 8;
+    ABT_key_free(&g_smoke_key);
+    return ABTD_atomic_relaxed_load_int(&g_smoke_cnt) == 12 ? 0 : 9;
+}
+
+/* compare the public ABT_info_query_config answers with the white-box values */
+static int query_same(const ABTI_global *g)
+{
+    unsigned int mx = 0;
+    size_t ts = 0, ss = 0;
+    uint64_t ef = 0, sn = 0;
+    ABT_bool lg = 77, db = 77, pc = 77;
+    int so = -1, bad = 0;
+    if (ABT_info_query_config(ABT_INFO_QUERY_KIND_MAX_NUM_XSTREAMS, &mx) != ABT_SUCCESS || (int)mx != g->max_xstreams)
+        bad |= 1;
+    if (ABT_info_query_config(ABT_INFO_QUERY_KIND_DEFAULT_THREAD_STACKSIZE, &ts) != ABT_SUCCESS || ts != g->thread_stacksize)
+        bad |= 2;
+    if (ABT_info_query_config(ABT_INFO_QUERY_KIND_DEFAULT_SCHED_STACKSIZE, &ss) != ABT_SUCCESS || ss != g->sched_stacksize)
+        bad |= 4;
+    if (ABT_info_query_config(ABT_INFO_QUERY_KIND_DEFAULT_SCHED_EVENT_FREQ, &ef) != ABT_SUCCESS || ef != g->sched_event_freq)
+        bad |= 8;
+    if (ABT_info_query_config(ABT_INFO_QUERY_KIND_DEFAULT_SCHED_SLEEP_NSEC, &sn) != ABT_SUCCESS || sn != g->sched_sleep_nsec)
+        bad |= 16;
+    if (ABT_info_query_config(ABT_INFO_QUERY_KIND_ENABLED_LOG, &lg) != ABT_SUCCESS || lg != g->use_logging)
+        bad |= 32;
+    if (ABT_info_query_config(ABT_INFO_QUERY_KIND_ENABLED_DEBUG, &db) != ABT_SUCCESS || db != g->use_debug)
+        bad |= 64;
+    if (ABT_info_query_config(ABT_INFO_QUERY_KIND_ENABLED_PRINT_CONFIG, &pc) != ABT_SUCCESS || pc != g->print_config)
+        bad |= 128;
+    if (ABT_info_query_config(ABT_INFO_QUERY_KIND_ENABLED_STACK_OVERFLOW_CHECK, &so) != ABT_SUCCESS ||
+        so != (g->stack_guard_kind == ABTI_STACK_GUARD_MPROTECT ? 2 : g->stack_guard_kind == ABTI_STACK_GUARD_MPROTECT_STRICT ? 3 : 0))
+        bad |= 256;
+    return bad;
+}
+
+static void env_run(const char *line)
+{
+    /* the parent has initialised Argobots; start from an uninitialised library */
+    ABT_finalize();
+    /* drop every inherited ABT_* variable */
+    for (;;) {
+        char **e, name[160];
+        int found = 0;
+        for (e = environ; e && *e; e++)
+            if (!strncmp(*e, "ABT_", 4)) {
+                size_t n = strcspn(*e, "=");
+                if (n < sizeof(name)) {
+                    memcpy(name, *e, n);
+                    name[n] = 0;
+                    unsetenv(name);
+                    found = 1;
+                    break;
+                }
+            }
+        if (!found)
+            break;
+    }
+    long nc = -1, pg = -1;
+    char *copy = strdup(line), *save, *tok;
+    for (tok = strtok_r(copy, " ", &save); tok; tok = strtok_r(NULL, " ", &save)) {
+        if (!strcmp(tok, "ENV"))
+            continue;
+        char *eq = strchr(tok, '=');
+        if (!eq)
+            VH_DIE("bad ENV token %s", tok);
+        *eq = 0;
+        if (!strcmp(tok, "nc"))
+            nc = atol(eq + 1);
+        else if (!strcmp(tok, "pg"))
+            pg = atol(eq + 1);
+        else {
+            char val[4096];
+            int n = 0;
+            char *q = eq + 1;
+            while (*q && n < 4095) {
+                val[n++] = (char)strtol(q, &q, 10);
+                if (*q == '.')
+                    q++;
+            }
+            val[n] = 0;
+            setenv(tok, val, 1);
+        }
+    }
+    free(copy);
+    if (nc != sysconf(_SC_NPROCESSORS_ONLN) || pg != getpagesize()) {
+        printf("ENV MACHINE-MISMATCH nc=%ld pg=%d\n", sysconf(_SC_NPROCESSORS_ONLN), getpagesize());
+        return;
+    }
+    ABTI_global *g = (ABTI_global *)calloc(1, sizeof(ABTI_global));
+    ABTD_env_init(g);
+    int sgk = g->stack_guard_kind == ABTI_STACK_GUARD_MPROTECT ? 1 : g->stack_guard_kind == ABTI_STACK_GUARD_MPROTECT_STRICT ? 2 : 0;
+    printf("ENV mx=%d log=%d dbg=%d kts=%u sg=%d sps=%zu ts=%zu ss=%zu ef=%u sn=%" PRIu64
+           " mh=%u mw=%u prs=%d hps=%zu mps=%zu msp=%zu mms=%u mmd=%u pc=%d",
+           g->max_xstreams, g->use_logging == ABT_TRUE, g->use_debug == ABT_TRUE, g->key_table_size, sgk,
+           g->sys_page_size, g->thread_stacksize, g->sched_stacksize, g->sched_event_freq, g->sched_sleep_nsec,
+           g->mutex_max_handovers, g->mutex_max_wakeups, g->print_raw_stack == ABT_TRUE, g->huge_page_size,
+           g->mem_page_size, g->mem_sp_size, g->mem_max_stacks, g->mem_max_descs, g->print_config == ABT_TRUE);
+    int sane = 16384 <= g->thread_stacksize && g->thread_stacksize <= 16777216 && 16384 <= g->sched_stacksize &&
+               g->sched_stacksize <= 67108864 && g->sys_page_size == (size_t)pg && g->huge_page_size <= 1073741824 &&
+               g->mem_page_size <= 67108864 && g->mem_sp_size <= 268435456 && g->key_table_size <= 65536 &&
+               g->mem_max_stacks <= 65536 && g->mem_max_descs <= 1048576 && g->sched_sleep_nsec <= 1000000 &&
+               g->sched_event_freq <= 4096 &&
+               !g->print_config;
+    printf(" sane=%d", sane);
+    if (sane) {
+        fflush(stdout);
+        int rc = ABT_init(0, NULL);
+        printf(" init=%d", rc);
+        if (rc == ABT_SUCCESS) {
+            ABTI_global *r = ABTI_global_get_global();
+            int same = r->max_xstreams == g->max_xstreams && r->use_logging == g->use_logging &&
+                       r->use_debug == g->use_debug && r->key_table_size == g->key_table_size &&
+                       r->stack_guard_kind == g->stack_guard_kind && r->sys_page_size == g->sys_page_size &&
+                       r->thread_stacksize == g->thread_stacksize && r->sched_stacksize == g->sched_stacksize &&
+                       r->sched_event_freq == g->sched_event_freq && r->sched_sleep_nsec == g->sched_sleep_nsec &&
+                       r->mutex_max_handovers == g->mutex_max_handovers &&
+                       r->mutex_max_wakeups == g->mutex_max_wakeups && r->print_raw_stack == g->print_raw_stack &&
+                       r->huge_page_size == g->huge_page_size && r->mem_page_size == g->mem_page_size &&
+                       r->mem_sp_size == g->mem_sp_size && r->mem_max_stacks == g->mem_max_stacks &&
+                       r->mem_max_descs == g->mem_max_descs && r->print_config == g->print_config;
+            printf(" same=%d q=%d", same, query_same(g));
+            fflush(stdout);
+            printf(" smoke=%d", smoke());
+            fflush(stdout);
+            ABT_finalize();
+        }
+    }
+    printf("\n");
+    free(g);
+}
+
+static void do_env(char *line)
+{
+    in_child("ENV", env_run, line);
+}
+
 int main(int argc, char **argv)
 {
     FILE *f = argc > 1 ? fopen(argv[1], "r") : stdin;
@@ -420,8 +741,12 @@ int main(int argc, char **argv)
     while ((line = vh_getline(f))) {
         if (line[0] == 'H')
             do_ht(line);
-        else if (line[0] == 'A')
+        else if (line[0] == 'A' && line[1] == 'T')
             do_at(line);
+        else if (line[0] == 'A' && line[1] == 'F')
+            do_af(line);
+        else if (line[0] == 'E')
+            do_env(line);
         fflush(stdout);
         free(line);
     }
